@@ -37,6 +37,8 @@ type vWorld struct {
 	snOut    [][]byte
 	mqOut    [][]byte
 	preState util.ClientState
+	preReg   []vEntry
+	told     []vEntry // ghost: topic IDs (and names) the client has been told
 	steps    int
 	conform  bool // broker model obeys MQTT (nothing but CONNACK before accepting; CONNACK only as an answer)
 }
@@ -88,6 +90,8 @@ func (w *vWorld) vJump(nr, nameLen int) []vEntry {
 		_, pd := w.x.h.predefinedTopics.GetTopicName(w.x.h.clientID, e.id)
 		vAssume(!pd)
 	}
+	// in an arbitrary pre-state every registration may have been told to the client
+	w.told = append(w.told, re...)
 	return re
 }
 
@@ -143,10 +147,9 @@ func vMQEvent(typ int, arg int) mqPkts.ControlPacket {
 
 // step performs one event and runs the oracles.
 func (w *vWorld) step(kind, arg int) {
-	h := w.x.h
 	w.steps++
 	w.inKind, w.inSN, w.inMQ, w.err = kind, nil, nil, nil
-	w.preState = h.state.Get()
+	w.before()
 	switch {
 	case kind >= evTIMER:
 		w.panicked = vPanics(func() { vAdvance() })
@@ -170,6 +173,48 @@ func (w *vWorld) step(kind, arg int) {
 	w.snOut = w.x.sn.take()
 	w.mqOut = w.x.mq.take()
 	w.oracles()
+}
+
+// learnTold adds to the ghost set the topic IDs this step told the client.
+func (w *vWorld) learnTold() {
+	h := w.x.h
+	add := func(id uint16) {
+		if v, found := h.registeredTopics.Load(id); found {
+			w.told = append(w.told, vEntry{id, v.(string)})
+		}
+	}
+	for _, d := range w.snOut {
+		r := vParseSN(d)
+		if !r.OK || r.TopicID == 0 {
+			continue
+		}
+		switch r.Typ {
+		case vtREGACK, vtSUBACK:
+			if r.RC == 0 {
+				add(r.TopicID)
+			}
+		}
+	}
+	// a REGISTER of the gateway that the client accepted
+	if ra, ok := w.inSN.(*snPkts1.Regack); ok && w.err == nil {
+		if ra.ReturnCode == snPkts1.RC_ACCEPTED {
+			add(ra.TopicID)
+		}
+	}
+}
+
+// before records what the oracles need from the pre-state of a step.
+func (w *vWorld) before() {
+	w.preState = w.x.h.state.Get()
+	w.preReg = nil
+	if vActive("C04.") {
+		vMapOrderFixed(true)
+		w.x.h.registeredTopics.Range(func(k, v interface{}) bool {
+			w.preReg = append(w.preReg, vEntry{k.(uint16), v.(string)})
+			return true
+		})
+		vMapOrderFixed(false)
+	}
 }
 
 // conformTopic: a conforming broker publishes on valid topic names only.
@@ -242,6 +287,47 @@ func (w *vWorld) oracles() {
 			return true
 		})
 		vMapOrderFixed(false)
+	}
+	if vActive("C04.") || vActive("C01.") {
+		// every topic ID the client was told (accepted REGACK / SUBACK, REGISTER it
+		// acknowledged) still denotes the same name: never removed, never renamed
+		lbl := "C04.told_id_stable"
+		if vActive("C01.") {
+			lbl = "C01.told_id_stable"
+		}
+		for _, e := range w.told {
+			v, found := h.registeredTopics.Load(e.id)
+			vAssert(found, lbl)
+			if found {
+				vAssert(v.(string) == e.name, lbl)
+			}
+		}
+	}
+	w.learnTold()
+	if vActive("C04.") {
+		// every ID handed to the client is in range, not predefined for it, and registered
+		for _, d := range w.snOut {
+			r := vParseSN(d)
+			if !r.OK {
+				continue
+			}
+			_, pd := h.predefinedTopics.GetTopicName(h.clientID, r.TopicID)
+			inRange := vAnd(r.TopicID >= 1, r.TopicID <= 0xFFFE)
+			switch r.Typ {
+			case vtREGISTER:
+				vReach("C04.id_handed_out")
+				vAssert(vAnd(inRange, !pd), "C04.handed_out_id_valid")
+			case vtREGACK:
+				vAssert(vImplies(r.RC == 0, vAnd(inRange, !pd)), "C04.handed_out_id_valid")
+			case vtSUBACK:
+				// an accepted SUBACK carries 0 (wildcard / short), the client's own
+				// predefined ID, or an ID the gateway registered for the name
+				if r.RC == 0 && r.TopicID != 0 {
+					_, reg := h.registeredTopics.Load(r.TopicID)
+					vAssert(vAnd(inRange, reg != pd), "C04.handed_out_id_valid")
+				}
+			}
+		}
 	}
 	// ---- C14: MQTT DISCONNECT only for a plain client DISCONNECT
 	if sawDisconnect {
@@ -327,6 +413,7 @@ const (
 	suConnected       = 15 // CONNECT + broker CONNACK accepted: active through a real connect exchange
 	suAuthWill        = 16 // auth on, CONNECT with will + AUTH PLAIN: WILLTOPICREQ sent
 	suFresh           = 17 // the initial state of a session
+	suRegistered      = 18 // active; the client registered a topic name (REGACK accepted)
 )
 
 func (w *vWorld) active() {
@@ -369,6 +456,11 @@ func (w *vWorld) setup(kind int) {
 			w.stepSN(au)
 			vAssume(w.err == nil)
 		}
+	case suRegistered:
+		w.active()
+		p := vSNPacket(vtREGISTER, 5).(*snPkts1.Register)
+		w.stepSN(p)
+		vAssume(vAnd(w.err == nil, len(w.told) == 1))
 	case suClientPubQ1:
 		w.active()
 		p := vSNPacket(vtPUBLISH, 6).(*snPkts1.Publish)
@@ -433,7 +525,7 @@ func (w *vWorld) setup(kind int) {
 func (w *vWorld) stepSN(pkt snPkts.Packet) {
 	w.steps++
 	w.inKind, w.inSN, w.inMQ, w.err = 0, pkt, nil, nil
-	w.preState = w.x.h.state.Get()
+	w.before()
 	w.panicked = vPanics(func() { w.err = w.x.feedSN(pkt) })
 	w.snOut = w.x.sn.take()
 	w.mqOut = w.x.mq.take()
@@ -443,7 +535,7 @@ func (w *vWorld) stepSN(pkt snPkts.Packet) {
 func (w *vWorld) stepMQ(pkt mqPkts.ControlPacket) {
 	w.steps++
 	w.inKind, w.inSN, w.inMQ, w.err = evMQ, nil, pkt, nil
-	w.preState = w.x.h.state.Get()
+	w.before()
 	w.conformTopic(pkt)
 	if w.conform {
 		if _, isCA := pkt.(*mqPkts.ConnackPacket); isCA {
